@@ -54,7 +54,10 @@ import arim.im.das as das      # noqa: E402
 import arim.im.tfm as tfm      # noqa: E402
 
 rng = chk.rng
-Q = chk.tier == "quick"
+# second tie: the scalar kernels are re-translated from the current source and checked
+# convertible with the model; a broken tie deepens the correspondence run (thorough sizes)
+_ties = chk.translation_tie()
+Q = chk.tier == "quick" and all(v == "ok" for v in _ties.values())
 IMPORTS = ("From Coq Require Import ZArith List PrimFloat.\n"
            "From Arim Require Import Base.Num Base.NumF Model.Das Model.Robust.\n")
 
